@@ -53,7 +53,7 @@ def rust_expected(term, env, locale_name):
         f = term["f"]
         if f.startswith("comp_"):
             n = f[len("comp_"):]
-            return "e.push_str(\"<%s>\"); %s e.push_str(\"</%s>\");" % (n, rust_expected(term["a"][0]["v"], env, locale_name), n)
+            return "e.push_str(%s); %s e.push_str(%s);" % (replay.rust_str(replay.OPEN % n), rust_expected(term["a"][0]["v"], env, locale_name), replay.rust_str(replay.CLOSE % n))
         if f.startswith("fmt_"):
             opts = [tok_to_rust(a["v"]) for a in term["a"][2:]]
             kind = f[len("fmt_"):]
@@ -69,7 +69,8 @@ def request_block(i, locale_ident, locale_name, hk, gen_fields, ref, env, kinds)
     for f in gen_fields:
         if f.startswith("comp_"):
             n = f[len("comp_"):]
-            args.append("<%s> = %s" % (n, replay.rust_str(n)))
+            args.append("<%s> = |f: &mut core::fmt::Formatter<'_>, c: &dyn Fn(&mut core::fmt::Formatter<'_>) -> core::fmt::Result| { f.write_str(%s)?; c(f)?; f.write_str(%s) }"
+                        % (n, replay.rust_str(replay.OPEN % n), replay.rust_str(replay.CLOSE % n)))
         else:
             n = f[len("var_"):]
             if f in kinds:
